@@ -171,6 +171,16 @@ mod verif_nx_mlstring {
             let after1 = ft.get_token(1).unwrap().0.get_content().to_string();
             let after2 = ft.get_token(3).unwrap().0.get_content().to_string();
             let mutated = after1 != l1 || after2 != l2;
+            // every literal of the line is processed on its own: the result for each equals try_rewrite_string on that literal
+            for (orig, after, ign) in [(l1, &after1, ign1), (l2, &after2, ign2)] {
+                if orig.contains('\n') && !ign {
+                    let last_line = orig.lines().last().unwrap();
+                    let base = &last_line[..last_line.len() - last_line.trim_start().len()];
+                    let fmt = FormattingData::verif_nx_new(false, 1, ind, 0, 0);
+                    let exp = sf.try_rewrite_string(orig, &fmt, base).unwrap_or_else(|| orig.to_string());
+                    assert!(*after == exp, "OB mlstring/every_literal_processed: each unignored multi-line literal of a line is re-indented, independently of the others\n lit1={:?} lit2={:?} ind={} literal={:?} got={:?} expected={:?}", l1, l2, ind, orig, after, exp);
+                }
+            }
             assert!(flag == mutated, "OB mlstring/changed_flag: format_multiline_strings returns true if and only if a token was mutated\n lit1={:?} lit2={:?} ign=({},{}) ind={} flag={} after1={:?} after2={:?}", l1, l2, ign1, ign2, ind, flag, after1, after2);
             assert!(!(ign1 && after1 != l1) && !(ign2 && after2 != l2), "OB mlstring/ignored_untouched: an ignored literal is never rewritten\n lit1={:?} lit2={:?}", l1, l2);
             assert!((l1.contains('\n') || after1 == l1) && (l2.contains('\n') || after2 == l2), "OB mlstring/only_multiline_literals: only multi-line literals are rewritten\n lit1={:?} lit2={:?}", l1, l2);
